@@ -706,6 +706,13 @@ C11_EXTRA = [{"id": "incrlist", "source": RAW_INCR, "start": "Expr", "names": ["
               "reps": ["tree"]}]
 
 
+# a weighted string whose FIRST letter is impossible at some position, in the first production (boundary genotypes reach it)
+C02_EXTRA = [{"id": "wstr-first-zero", "start": "Expr", "classes": [
+    _c("Expr", "", abstract=True),
+    _c("W", "Expr", [("w", ("ann", ("base", "str"), ("WeightedStr", [[0.0, 1.0, 0.0], [0.0, 0.5, 0.5], [1.0, 0.0, 0.0]], ["a", "c", "g"])))]),
+    _c("Op", "Expr", [("l", E), ("r", E)])]}]
+
+
 def build_raw(raw) -> Built:
     name = f"verifg_{next(_counter)}"
     mod = types.ModuleType(name)
